@@ -145,6 +145,9 @@ class Gen:
             pass
         ob.append(('locals_ok', 'forallb (fun b => b) local_sites = true', 'vm_compute. reflexivity.', all(s[3] for s in T.local_sites),
                    'receiver:' + ','.join('%s.%s' % (s[0], s[1]) for s in T.local_sites if not s[3])))
+        cm = getattr(T, 'cache_mutation_sites', [])
+        ob.append(('queries_do_not_mutate_cache', '%s = true' % str(not cm).lower(), 'reflexivity.', not cm,
+                   'cachemutation:' + ','.join(sorted({'%s:%s' % (c['func'], c['key']) for c in cm}))))
         ob.append(('raw_writes_ok', '%s = true' % str(not T.raw_sites_bad).lower(), 'reflexivity.', not T.raw_sites_bad,
                    'rawwrite:' + ','.join('%s:%s' % (s[0], s[1]) for s in T.raw_sites_bad)))
         for t in T.transformers:
@@ -226,6 +229,8 @@ BASES = [
     ['V1 1 0 5', 'R1 1 2 2', 'R2 2 3 3', 'R3 3 0 4'],
     ['V1 1 0 step 2', 'L1 1 2 3', 'R1 2 0 R'],
     ['V1 1 0 3', 'R1 1 2 2', 'W 2 3', 'R2 3 0 5', 'I1 0 2 1'],
+    ['V1 1 0 step 2', 'R1 1 2 3', 'W 2 3', 'C1 3 0 2', 'R2 3 0 4'],
+    ['I1 0 1 3', 'R1 1 2 2', 'W 2 3', 'W 3 4', 'R2 4 0 5', 'R3 2 0 6', 'W 0 5', 'R4 1 5 7'],
 ]
 OTHERS = [
     ['V9 7 0 9', 'R9 7 8 R1', 'C9 8 0 C'],
@@ -243,6 +248,7 @@ XFORMS = [
 ]
 CHEAP_Q = ['complist', 'flags', 'switching', 'node_list', 'node_map', 'branch_list', 'enodes', 'cpts', 'nodes', 'lists', 'params', 'kinds']
 MID_Q = ['V', 'I', 'Vc', 'cg', 'sim', 'text']
+TOPO_Q = ['wired_to', 'is_wired_to', 'across', 'in_series', 'in_parallel', 'loops', 'nodeinfo', 'enodes', 'node_map', 'cg']
 COSTLY_Q = ['transfer', 'impedance', 'ss', 'nodal', 'mesh', 'thevenin', 'symbols']
 
 
@@ -257,6 +263,8 @@ class NetModel:
 
     def add(self, line):
         p = line.split()
+        if p[0] == 'W':
+            p[0] = 'W#%d' % len(self.cpts)
         self.cpts[p[0]] = p[1:3]
         if p[0][0] in 'RLC' and len(p) > 3:
             self.vals[p[0]] = p[3]
@@ -283,13 +291,20 @@ class NetModel:
 
 def rand_query(rng, model, tier, kinds=None):
     r = rng.random()
-    pool = CHEAP_Q if r < 0.5 else (MID_Q if (r < 0.88 or not model.small()) else COSTLY_Q)
+    pool = CHEAP_Q if r < 0.38 else (TOPO_Q if r < 0.62 else (MID_Q if (r < 0.9 or not model.small()) else COSTLY_Q))
     if kinds:
         pool = kinds
     k = rng.choice(pool)
     q = {'k': k}
     nodes = [n for n in model.nodes() if n != '0'] or ['1']
-    names = [c for c in model.cpts if c != 'W'] or ['R1']
+    names = [c for c in model.cpts if not c.startswith('W')] or ['R1']
+    if k in ('wired_to', 'nodeinfo'):
+        q['a'] = rng.choice(model.nodes() or ['1'])
+    elif k in ('is_wired_to', 'across'):
+        q['a'] = rng.choice(model.nodes() or ['1'])
+        q['b'] = rng.choice(model.nodes() or ['0'])
+    elif k in ('in_series', 'in_parallel'):
+        q['a'] = rng.choice(names)
     if k == 'V':
         q['a'] = rng.choice(nodes)
     elif k in ('I', 'Vc'):
@@ -304,7 +319,7 @@ def rand_query(rng, model, tier, kinds=None):
 
 
 def rand_add(rng, model):
-    typ = rng.choice(['R', 'R', 'R', 'C', 'L', 'V', 'I', 'W', 'SW', 'R', 'C'])
+    typ = rng.choice(['R', 'R', 'R', 'C', 'L', 'V', 'I', 'W', 'W', 'SW', 'R', 'C'])
     nodes = model.nodes()
     a = rng.choice(nodes)
     b = rng.choice([n for n in nodes if n != a] + [str(len(nodes) + 3)])
@@ -348,16 +363,15 @@ def gen_session(rng, tier, sid, nops=None):
         if r < 0.30:
             line, name = rand_add(rng, models[o])
             steps.append({'op': 'mut', 'obj': o, 'm': {'how': 'add', 'line': line}})
-            if not line.startswith('W '):
-                models[o].add(line)
+            models[o].add(line)
         elif r < 0.42 and len(models[o].cpts) > 2:
             name = rng.choice(list(models[o].cpts))
-            if name == 'W':
+            if name.startswith('W'):
                 continue
             steps.append({'op': 'mut', 'obj': o, 'm': {'how': 'remove', 'name': name}})
             models[o].cpts.pop(name, None)
         elif r < 0.47:
-            name = rng.choice([c for c in models[o].cpts if c != 'W'] or ['R1'])
+            name = rng.choice([c for c in models[o].cpts if not c.startswith('W')] or ['R1'])
             steps.append({'op': 'mut', 'obj': o, 'm': {'how': rng.choice(['open_circuit', 'short_circuit']), 'name': name}})
         elif r < 0.72:
             how = rng.choice(['copy', 'copy', 'subs', 'kill', 'simplify', 'select', 'replace', 'laplace', 'r_model', 'prune', 'kill_except', 'transient', 'dc'])
@@ -368,11 +382,11 @@ def gen_session(rng, tier, sid, nops=None):
             elif how == 'select':
                 d['kind'] = rng.choice(['dc', 'transient', 'laplace', 'time'])
             elif how == 'replace':
-                old = rng.choice([c for c in models[o].cpts if c != 'W'] or ['R1'])
+                old = rng.choice([c for c in models[o].cpts if not c.startswith('W')] or ['R1'])
                 d['old'] = old
                 d['new'] = '%s %s %s %d' % (old, models[o].cpts.get(old, ['1', '0'])[0], models[o].cpts.get(old, ['1', '0'])[1], rng.randint(2, 9))
             elif how == 'prune':
-                d['name'] = rng.choice([c for c in models[o].cpts if c != 'W'] or ['R1'])
+                d['name'] = rng.choice([c for c in models[o].cpts if not c.startswith('W')] or ['R1'])
                 m2.cpts.pop(d['name'], None)
             elif how == 'kill_except':
                 srcs = [c for c in models[o].cpts if c[0] in 'VI']
@@ -418,6 +432,27 @@ def targeted_sessions(T, rng, bad_keys, bad_ops, workdir):
                 [{'op': 'query', 'obj': 'a', 'q': {'k': 'V', 'a': '2'}}]})
     out.append({'id': 'target_xforms_rev', 'steps': [dict(x) for x in reversed(xs)] + [{'op': 'new', 'obj': 'a', 'text': '\n'.join(BASES[3])},
                 {'op': 'query', 'obj': 'a', 'q': {'k': 'V', 'a': '2'}}] + [dict(x) for x in xs]})
+    # node-level and topology queries, twice and in two orders, with no mutation in between
+    for bi in (len(BASES) - 2, len(BASES) - 1):
+        base = BASES[bi]
+        m = NetModel(base)
+        qs = []
+        for n in m.nodes():
+            qs.append({'op': 'query', 'obj': 'a', 'q': {'k': 'wired_to', 'a': n}})
+        for k in ('enodes', 'node_map', 'node_list', 'loops', 'cg', 'nodes'):
+            qs.append({'op': 'query', 'obj': 'a', 'q': {'k': k}})
+        ns = m.nodes()
+        for a in ns[:4]:
+            for b in ns[:4]:
+                if a < b:
+                    qs.append({'op': 'query', 'obj': 'a', 'q': {'k': 'is_wired_to', 'a': a, 'b': b}})
+                    qs.append({'op': 'query', 'obj': 'a', 'q': {'k': 'across', 'a': a, 'b': b}})
+        for c in [x for x in m.cpts if not x.startswith('W')]:
+            qs.append({'op': 'query', 'obj': 'a', 'q': {'k': 'in_series', 'a': c}})
+            qs.append({'op': 'query', 'obj': 'a', 'q': {'k': 'in_parallel', 'a': c}})
+        new = [{'op': 'new', 'obj': 'a', 'text': '\n'.join(base)}]
+        out.append({'id': 'target_topology_fwd_%d' % bi, 'steps': new + qs + [dict(x) for x in qs]})
+        out.append({'id': 'target_topology_rev_%d' % bi, 'steps': new + [dict(x) for x in reversed(qs)] + [dict(x) for x in qs]})
     for key in bad_keys:
         kinds = sorted(k for k, ks in views_of.items() if key in ks and k not in ('symbols',))
         for bi in (1, 3):
@@ -603,8 +638,17 @@ def judge(sess, recs, fresh):
     stats = {'queries': 0, 'stale': 0, 'derives': 0, 'xforms': 0, 'hashseed_dependent': 0, 'errors_equal': 0, 'benign_text': 0}
     prev_texts = {}
     seen_xform = {}
+    # a mutator that raised may have stopped half-way (exceptional exits are outside the quantifier):
+    # the object is not judged from there on
+    dead_at = {}
+    for i, (st, rec) in enumerate(zip(sess['steps'], recs)):
+        if st['op'] == 'mut' and str(rec['r']).startswith('ERR:') and st['obj'] not in dead_at:
+            dead_at[st['obj']] = i
     for i, kind, req in step_requests(sess, recs):
         st, rec = sess['steps'][i], recs[i]
+        if st.get('obj') in dead_at and i >= dead_at[st['obj']]:
+            stats['after_failed_mutator'] = stats.get('after_failed_mutator', 0) + 1
+            continue
         oseed = other_seed(seed)
         same, diff = fresh.get(seed, req), fresh.get(oseed, req)
         if same is None or diff is None or 'fresh-worker-crash' in str(same) + str(diff) or 'childcrash' in str(same) + str(diff):
@@ -660,6 +704,8 @@ def judge(sess, recs, fresh):
         target = st.get('as') if st['op'] == 'derive' else st.get('obj')
         for name, txt in rec['texts'].items():
             if name in prev and prev[name] != txt and not (st['op'] == 'mut' and name == target):
+                if name in dead_at and i >= dead_at[name]:
+                    continue
                 if is_ground_insertion(prev[name], txt):
                     stats['ground_inserted'] = stats.get('ground_inserted', 0) + 1
                     continue
@@ -709,6 +755,7 @@ class CoqCases:
         index = {}
         texts_prev = {}
         inst_keys = {k for k, m in self.T.memo.items() if m['kind'] in ('cprop', 'hasattr')}
+        dead = set()         # objects on which a mutator raised (possibly half-way)
 
         def emit(term, i, tag):
             sops.append(term)
@@ -728,6 +775,8 @@ class CoqCases:
                     else:
                         emit('PMutNoInval %d %d %d' % (index[o], self.views['breach|'][0], self.did(txt)), i, 'breach')
             failed = str(rec['r']).startswith('ERR:')
+            if op == 'mut' and failed and st['obj'] in index:
+                dead.add(st['obj'])
             if op == 'new':
                 if rec['r'] != 'ok' or st['obj'] in index:
                     self.why = 'new failed: %s' % rec['r']
@@ -771,7 +820,7 @@ class CoqCases:
                 d = self.did(texts[o])
                 req = {'text': texts[o], 'q': q}
                 same, diff = fresh.get(seed, req), fresh.get(other_seed(seed), req)
-                if same is None or same != diff or 'crash' in same or skipped(same, rec['r']):
+                if same is None or same != diff or 'crash' in same or skipped(same, rec['r']) or o in dead:
                     emit('PTouch %d %d' % (index[o], v), i, 'touch')
                 else:
                     self.fresh[(d, v)] = self.vid(same)
@@ -831,6 +880,8 @@ def last_step_fails(sess, recs, fresh, kind):
         return False
     st, rec = sess['steps'][-1], recs[-1]
     seed = sess['hashseed']
+    if any(s2['op'] == 'mut' and s2.get('obj') == st.get('obj') and str(r2['r']).startswith('ERR:') for s2, r2 in zip(sess['steps'][:-1], recs[:-1])):
+        return False        # a mutator raised on this object earlier: not judged
     if st['op'] == 'query':
         txt = rec['texts'].get(st['obj'])
         if txt is None:
@@ -856,7 +907,7 @@ def last_step_fails(sess, recs, fresh, kind):
     return False
 
 
-def shrink(sess, upto, fresh, memo_attrs, budget=60):
+def shrink(sess, upto, fresh, memo_attrs, budget=60, seconds=75):
     """delta debugging of the steps before `upto` (the failing step is kept last)"""
     steps = sess['steps'][:upto + 1]
     keep = list(range(len(steps) - 1))
@@ -870,11 +921,12 @@ def shrink(sess, upto, fresh, memo_attrs, budget=60):
         ss = [make(c) for c in cands]
         rs = run_sessions(ss, memo_attrs)
         return [last_step_fails(s, r, fresh, kind) for s, r in zip(ss, rs)]
+    t_end = time.time() + seconds
     if not test_many([keep])[0]:
         return None
     used = 1
     n = 2
-    while len(keep) >= 1 and used < budget:
+    while len(keep) >= 1 and used < budget and time.time() < t_end:
         size = max(1, len(keep) // n)
         chunks = [keep[i:i + size] for i in range(0, len(keep), size)]
         cands = [[x for x in keep if x not in ch] for ch in chunks]
@@ -890,7 +942,7 @@ def shrink(sess, upto, fresh, memo_attrs, budget=60):
             n = min(len(keep), n * 2)
     # final pass: drop single steps while the failure persists
     rounds = 0
-    while len(keep) > 1 and rounds < 6:
+    while len(keep) > 1 and rounds < 6 and time.time() < t_end + 30:
         cands = [[x for x in keep if x != y] for y in keep[1:]]
         res = test_many(cands)
         hit = [c for c, ok in zip(cands, res) if ok]
@@ -924,10 +976,11 @@ def shrink_iso(sess, obj, memo_attrs, budget):
     def test_many(cands):
         ss = [make(c) for c in cands]
         return [fails(x, r) for x, r in zip(ss, run_sessions(ss, memo_attrs))]
+    t_end = time.time() + 75
     if not test_many([keep])[0]:
         return None
     used, n = 1, 2
-    while keep and used < budget:
+    while keep and used < budget and time.time() < t_end:
         size = max(1, len(keep) // n)
         chunks = [keep[i:i + size] for i in range(0, len(keep), size)]
         cands = [[x for x in keep if x not in ch] for ch in chunks]
@@ -1316,7 +1369,10 @@ def run(tier='quick', replay=None):
                     key = 'override-add'
                 elif st['op'] == 'query':
                     culprits = attribute(small, fresh, memo_attrs)
-                    if culprits:
+                    cms = [c for c in getattr(T, 'cache_mutation_sites', []) if c['key'] in culprits] if T is not None else []
+                    if cms:
+                        key = 'cachemutation:%s:%s' % (cms[0]['func'], cms[0]['key'])
+                    elif culprits:
                         unc = [c for c in culprits if T is None or c not in T.cleared]
                         key = ('stale:' + '+'.join(sorted(unc))) if unc and len(unc) == len(culprits) else 'history:%s:%s' % (ce['what'], '+'.join(sorted(culprits)))
             v.update(key=key, what='%s is history dependent: after %d operations the answer differs from the same query on Circuit(str(cct)) in a fresh interpreter' % (ce['what'], len(small['steps']) - 1),
@@ -1373,6 +1429,8 @@ def run(tier='quick', replay=None):
             if name in derived and causes:
                 continue        # consequence of the individually reported obligations
             if k and any(r == k or r.startswith(k + '+') or ('+' in r and k.split(':', 1)[1] in r.split(':', 1)[1].split('+')) for r in reported):
+                continue
+            if k and k.startswith('cachemutation:') and any(r.startswith('cachemutation:') and r.split(':', 1)[1] in k for r in reported):
                 continue
             xmap = {'InverseLaplaceTransformer': 'ilt', 'LaplaceTransformer': 'laplace', 'FourierTransformer': 'fourier'}
             if k and k.startswith('transformkey:') and ('history:xform:' + xmap.get(k.split(':')[1], '?')) in reported:
